@@ -685,6 +685,15 @@ def simplify_boolean_expressions_symmath(source: str) -> str:
             yield node, simplified
 
 
+def _integer_literal_value(node: ast.AST) -> int | None:
+    """Value of an integer literal such as 3 or -3, or None if the node is anything else."""
+    if core.match_template(node, ast.UnaryOp(op=ast.USub, operand=ast.Constant(value=int))):
+        return -node.operand.value
+    if core.match_template(node, ast.Constant(value=int)):
+        return node.value
+    return None
+
+
 @processing.fix
 def simplify_constrained_range(source: str) -> str:
     root = core.parse(source)
@@ -715,20 +724,7 @@ def simplify_constrained_range(source: str) -> str:
         else:
             continue
 
-        if core.match_template(args[0], ast.Constant(value=int)):
-            start = args[0].value
-        else:
-            start = None
-
-        if core.match_template(args[1], ast.Constant(value=int)):
-            stop = args[1].value
-        else:
-            stop = None
-
-        if core.match_template(args[2], ast.Constant(value=int)):
-            step = args[2].value
-        else:
-            step = None
+        start, stop, step = (_integer_literal_value(arg) for arg in args)
 
         target_name = comp.target.id
 
@@ -779,8 +775,9 @@ def simplify_constrained_range(source: str) -> str:
         ),)
         templates = (gt_template, lt_template, gte_template, lte_template, eq_template)
 
-        if step != 1:
-            # Bounds can only be folded into the range when it visits every integer in order.
+        if step != 1 or start is None or stop is None:
+            # Bounds can only be folded into the range when it visits every integer in order,
+            # and only be compared with range arguments that are known.
             continue
 
         redundant_conditions = set()
